@@ -955,20 +955,6 @@ func (c *Conn) handleBdat(arg string) {
 		return
 	}
 
-	if !c.fromReceived || len(c.recipients) == 0 {
-		c.writeResponse(502, EnhancedCode{5, 5, 1}, "Missing RCPT TO command.")
-		return
-	}
-
-	last := false
-	if len(args) == 2 {
-		if !strings.EqualFold(args[1], "LAST") {
-			c.writeResponse(501, EnhancedCode{5, 5, 4}, "Unknown BDAT argument")
-			return
-		}
-		last = true
-	}
-
 	// ParseUint instead of Atoi so we will not accept negative values.
 	size, err := strconv.ParseUint(args[0], 10, 32)
 	if err != nil {
@@ -976,11 +962,30 @@ func (c *Conn) handleBdat(arg string) {
 		return
 	}
 
+	// From here on the chunk size is known: a refused chunk must still be
+	// consumed, otherwise its octets would be parsed as commands.
+
+	if !c.fromReceived || len(c.recipients) == 0 {
+		c.writeResponse(502, EnhancedCode{5, 5, 1}, "Missing RCPT TO command.")
+		c.discardChunk(size)
+		return
+	}
+
+	last := false
+	if len(args) == 2 {
+		if !strings.EqualFold(args[1], "LAST") {
+			c.writeResponse(501, EnhancedCode{5, 5, 4}, "Unknown BDAT argument")
+			c.discardChunk(size)
+			return
+		}
+		last = true
+	}
+
 	if c.server.MaxMessageBytes != 0 && c.bytesReceived+int64(size) > c.server.MaxMessageBytes {
 		c.writeResponse(552, EnhancedCode{5, 3, 4}, "Max message size exceeded")
 
 		// Discard chunk itself without passing it to backend.
-		io.Copy(ioutil.Discard, io.LimitReader(c.text.R, int64(size)))
+		c.discardChunk(size)
 
 		c.reset()
 		return
@@ -1082,6 +1087,14 @@ func (c *Conn) handleBdat(arg string) {
 	} else {
 		c.writeResponse(250, EnhancedCode{2, 0, 0}, "Continue")
 	}
+}
+
+// discardChunk consumes the octets of a BDAT chunk that was refused.
+func (c *Conn) discardChunk(size uint64) {
+	// The chunk is binary data, not lines.
+	c.lineLimitReader.LineLimit = 0
+	io.Copy(ioutil.Discard, io.LimitReader(c.text.R, int64(size)))
+	c.lineLimitReader.LineLimit = c.server.MaxLineLength
 }
 
 // ErrDataReset is returned by Reader pased to Data function if client does not
